@@ -9,7 +9,7 @@ from litedram.common import LiteDRAMNativePort
 from litedram.frontend.axi import LiteDRAMAXIPort, LiteDRAMAXI2Native
 
 from ..engine import Sim
-from ..agents import stuck, NativeMemSlave, Violations, word_of, init_byte, StreamDriver, StreamSink
+from ..agents import StallCounter, stuck, NativeMemSlave, Violations, word_of, init_byte, StreamDriver, StreamSink
 from .c07 import gen_pattern, gen_extra
 
 ID = "C09"
@@ -204,6 +204,7 @@ def run(scn):
     ar_d = StreamDriver(sim, axi.ar, ar_items, axf, on_xfer=on_ar)
     b_s = StreamSink(sim, axi.b, ["id", "resp"], ready=scn.get("b_ready"), on_xfer=on_b)
     r_s = StreamSink(sim, axi.r, ["id", "resp", "data", "last"], ready=scn.get("r_ready"), on_xfer=on_r)
+    sc_b, sc_r = StallCounter(sim, axi.b.valid, axi.b.ready), StallCounter(sim, axi.r.valid, axi.r.ready)
     for a in (aw_d, w_d, ar_d, b_s, r_s) + (() if core else (mem,)):
         sim.add_agent("sys", a)
     # native-side conservation: every native write has full byte enables in RMW mode
@@ -257,6 +258,7 @@ def run(scn):
         nr = sum(1 for x in mem.log if x[0] == "r")
         stats["rmw_cycles"] = max(0, nr - len(rbeats))
     stats["core_variant_runs"] = 1 if core else 0
+    stats["b_stall"], stats["r_stall"] = sc_b.n, sc_r.n
     return {"violations": viol.v, "stats": stats, "cycles": cyc, "sim_ps": sim.now, "digest": sim.digest(),
             "nontrivial": len(writes) + len(reads) >= 2,
             "states": samp.states("rmw%d " % int(bool(d.get("rmw")))),
